@@ -129,7 +129,9 @@ type unpackCfg struct {
 // symlinks" bookkeeping).
 type reqLinks struct{}
 
-func (reqLinks) FileRequired(_ string, fi fs.FileInfo) bool { return fi == nil || !fi.Mode().IsRegular() }
+func (reqLinks) FileRequired(_ string, fi fs.FileInfo) bool {
+	return fi == nil || !fi.Mode().IsRegular()
+}
 
 var unpackCfgs = []unpackCfg{
 	{"retain/log/pass3/all", unpack.SymlinkRetain, unpack.SymlinkErrLog, 3, 0, "all"}, // DefaultUnpackerConfig
@@ -184,7 +186,9 @@ func requirer(s string) require.FileRequirer {
 
 // ---------------------------------------------------------------- tar / image building
 
-func payload(e entry) []byte { return []byte("payload of " + e.Kind + " " + e.Name[:min(len(e.Name), 20)] + "\n") }
+func payload(e entry) []byte {
+	return []byte("payload of " + e.Kind + " " + e.Name[:min(len(e.Name), 20)] + "\n")
+}
 
 // layerTar serialises entries as a raw tar stream. ok=false if archive/tar cannot encode an entry
 // (the case is then outside the space of tar streams and is skipped).
@@ -228,12 +232,16 @@ func newRawLayer(b []byte) *rawLayer {
 	s := sha256.Sum256(b)
 	return &rawLayer{b: b, h: v1.Hash{Algorithm: "sha256", Hex: hex.EncodeToString(s[:])}}
 }
-func (l *rawLayer) Digest() (v1.Hash, error)             { return l.h, nil }
-func (l *rawLayer) DiffID() (v1.Hash, error)             { return l.h, nil }
-func (l *rawLayer) Compressed() (io.ReadCloser, error)   { return io.NopCloser(bytes.NewReader(l.b)), nil }
-func (l *rawLayer) Uncompressed() (io.ReadCloser, error) { return io.NopCloser(bytes.NewReader(l.b)), nil }
-func (l *rawLayer) Size() (int64, error)                 { return int64(len(l.b)), nil }
-func (l *rawLayer) MediaType() (types.MediaType, error)  { return types.DockerUncompressedLayer, nil }
+func (l *rawLayer) Digest() (v1.Hash, error) { return l.h, nil }
+func (l *rawLayer) DiffID() (v1.Hash, error) { return l.h, nil }
+func (l *rawLayer) Compressed() (io.ReadCloser, error) {
+	return io.NopCloser(bytes.NewReader(l.b)), nil
+}
+func (l *rawLayer) Uncompressed() (io.ReadCloser, error) {
+	return io.NopCloser(bytes.NewReader(l.b)), nil
+}
+func (l *rawLayer) Size() (int64, error)                { return int64(len(l.b)), nil }
+func (l *rawLayer) MediaType() (types.MediaType, error) { return types.DockerUncompressedLayer, nil }
 
 func buildImage(layers [][]entry) (v1.Image, bool) {
 	var ls []v1.Layer
@@ -257,6 +265,7 @@ type viol struct {
 	Key  string `json:"key"`
 	What string `json:"what"`
 	Only string `json:"-"` // scan phase: the single plugin the violation was attributed to
+	Host bool   `json:"-"` // a probe path on the real root appeared (shared by all workers, so attribution needs a re-run)
 }
 
 type caseResult struct {
@@ -396,7 +405,7 @@ func runImageCase(sb *sandbox, c imgCase) caseResult {
 	}
 	hostCheck := func() {
 		if hc := sb.hostChanges(); len(hc) > 0 {
-			report([]viol{{Key: epLabel(c.EP) + ":host-root-written", What: "created on the real root: " + strings.Join(hc, ", ")}})
+			report([]viol{{Key: epLabel(c.EP) + ":host-root-written", What: "created on the real root: " + strings.Join(hc, ", "), Host: true}})
 		}
 	}
 
